@@ -46,7 +46,9 @@ VARIABLES
   hist
 
 vars == <<cache, disk, fin, stale, want, verdict, closedStale, out, hist>>
-view == <<cache, disk, fin, stale, want, verdict, closedStale, out, Len(hist)>>
+\* VIEW of the exhaustive configurations: the history and the last result are not part of the fingerprint (no property
+\* mentions them), so with a large MaxOps TLC covers the operation sequences of EVERY length over Keys x 1..NV
+view == <<cache, disk, fin, stale, want, verdict, closedStale>>
 
 Present(m) == {k \in Keys : m[k] # 0}
 \* results: [val, key, err, m]  (uniformly typed; defaults 0 / "" / FALSE / Absent)
